@@ -80,6 +80,10 @@ impl Mempool {
         }
     }
     pub async fn add_golden_ticket(&mut self, golden_ticket: Transaction) {
+        if golden_ticket.data.len() != 97 {
+            debug!("golden ticket transaction with a malformed payload ignored");
+            return;
+        }
         let gt = GoldenTicket::deserialize_from_net(&golden_ticket.data);
         debug!(
             "adding golden ticket : {:?} target : {:?} public_key : {:?}",
